@@ -190,6 +190,21 @@ CLAIMED = {
         technique="TLA+ law spec (lemma model-checked) + TLC trace validation of recorded solver steps",
         ref="5/C18",
     ),
+    "C16": dict(
+        level="model_checking",
+        text="ConsistentIC.tla gives (decide) the accept/reject table over abstract facts of the initial state, (scene) the acceleration-level "
+             "Signorini-Coulomb problem of a point mass on a plane with integer data and its constructive rational solution (lift-off, slide, "
+             "stick, break-away), which TLC checks against the declarative conditions of the property on the whole lattice, and (trace) the law "
+             "every recorded assembly must satisfy. Lattice scenes are assembled with the real classes and u_dot0, la_N0, la_F0 compared with "
+             "the rationals; every realisable decision-table case is built and must be accepted/rejected; seeded random consistent systems "
+             "(hinged chains with actuators, force laws in both forms, Maxwell elements, balls resting/sliding/separating, chain tips resting "
+             "on a floor) are assembled and their residuals validated by TLC.",
+        note="Model checking for the lattice scenes and the decision table (exact, compared at 1e-9 with fixed_point_atol 1e-12); the random "
+             "systems are exploration (residual thresholds 1e-8..1e-6 relative to the force scale, booleans judged by TLC). The fact "
+             "'velocity-level bilateral constraint violated' is not realised (no stand-alone gamma constraint class in the library).",
+        technique="TLA+ exact-lattice spec + TLC enumeration, replay into System.assemble; TLC trace validation of recorded assemblies",
+        ref="5/C16",
+    ),
 }
 
 NOT_APPLICABLE = {
